@@ -270,7 +270,10 @@ class SkelEval(Eval):
             def rec(i):
                 if i == len(loops):
                     if self.truth(en['cond']):
-                        out.append(self.ev(en['val']))
+                        if en.get('flat'):
+                            out.extend(self.iterable(self.ev(en['val']), en['val']))
+                        else:
+                            out.append(self.ev(en['val']))
                     return
                 eid, src, conds = loops[i]
                 items = self.iterable(self.ev(src), src)
